@@ -40,7 +40,7 @@ C_R = "a violating block is rejected and the prior chain state is left exactly a
 C_F = "validation against the parent's state, whatever other forks are stored (frame)"
 C_D = "the signed message covers the complete list of references and outputs"
 
-SHAPES = ("1in", "2in", "2tx")
+SHAPES = ("1in", "2in", "2in-first", "2tx")
 
 
 def _build(W: World, shape: str, c: int, d: Draw):
@@ -81,6 +81,10 @@ def spend(shape: str, c: int, served_head: str = "P", twin: bool = False, real: 
             txs = [W.make_tx(t1id, ins_all[0], [(ov0, 1)], pv, cb.hash(), None)]
         elif shape == "2in":
             ins_all = [[(0, 0, 0), (c, idx, kind)]]
+            txs = [W.make_tx(t1id, ins_all[0], [(ov0, 1), (ov1, 2)], pv, cb.hash(), None)]
+        elif shape == "2in-first":
+            # the adversarial input comes FIRST, a valid one (T11,0) last
+            ins_all = [[(c, idx, kind), (2, 0, 0)]]
             txs = [W.make_tx(t1id, ins_all[0], [(ov0, 1), (ov1, 2)], pv, cb.hash(), None)]
         else:
             ins_all = [[(0, 0, 0)], [(c, idx, kind)]]
@@ -223,6 +227,8 @@ def obligations(tier: str, known: List[str]) -> List[Ob]:
     for shape in SHAPES:
         for c in range(10):
             if not thorough and shape == "2in" and c in (2, 3, 6):
+                continue
+            if not thorough and shape == "2in-first" and c not in (0, 1, 4, 5):
                 continue
             obs.append(Ob("spend[%s,ref=%s]" % (shape, POOL_NAMES[c]), C_A + "; " + C_R, "spend", {"shape": shape, "c": c}, timeout=T))
     # the same with the sibling fork as the served head (validation must still use the parent's state)
